@@ -74,3 +74,20 @@ Theorem C14_unbound_value : forall validate to_py dflt lookup name environ path 
   Some (match last_write validate to_py (rev h) with Some w => w | None => (dflt, SDefault) end).
 Proof. exact precedence_unbound. Qed.
 Print Assumptions C14_unbound_value.
+
+(* environments per construction: whatever happened before (other environments, other configurations
+   of the same schema, failed constructions), after `GBuild e` and operations on that configuration the
+   state is that of the one-environment machine under `e` -- nothing read or validated earlier survives *)
+Theorem C14_env_per_build : forall validate to_py dflt lookup name path before g e h,
+  grun validate to_py dflt lookup name path g (before ++ GBuild e :: map GOp h)
+  = (e, erun validate to_py dflt lookup name e path None (OBuild :: h)).
+Proof. exact env_per_build. Qed.
+Print Assumptions C14_env_per_build.
+
+Theorem C14_precedence_per_build : forall validate to_py dflt lookup name path,
+  known_F20 lookup name = false ->
+  forall before g e h,
+  grun validate to_py dflt lookup name path g (before ++ GBuild e :: map GOp h)
+  = (e, spec_state validate to_py dflt name e (rev h)).
+Proof. exact precedence_per_build. Qed.
+Print Assumptions C14_precedence_per_build.
